@@ -32,18 +32,24 @@ def icfgs(seed, thorough):
     return out
 
 
-def run_one(mode, prog, regs, words, icache, maxsteps, hazard=True):
+def run_one(mode, prog, regs, words, icache, maxsteps, hazard=True, inspect=False):
     sim = rv.make_sim(mode, prog, regs, words, hazard=hazard, icache=icache, pre_reset=True)
     log = spy.spy_fetch(sim) if icache is not None else None
-    res = rv.run(sim, maxsteps)
+
+    def look(_n, s):
+        # the cache table and the statistics are looked at after every step (what the web front end does)
+        s.get_instruction_cache_entries()
+        s.get_instruction_cache_stats()
+
+    res = rv.run(sim, maxsteps, per_step=look if inspect else None)
     return sim, res, log
 
 
-def check_icache(prog, regs, words, cfg, mode, maxsteps):
+def check_icache(prog, regs, words, cfg, mode, maxsteps, inspect=False):
     """Returns (uncached result, ref cache, list of (field, detail))."""
     ib, bb, ways, policy, pen = cfg
     _s0, base, _l = run_one(mode, prog, regs, words, None, maxsteps)
-    sim, got, log = run_one(mode, prog, regs, words, rv.cache_opts(ib, bb, ways, "wb", policy, pen), maxsteps)
+    sim, got, log = run_one(mode, prog, regs, words, rv.cache_opts(ib, bb, ways, "wb", policy, pen), maxsteps, inspect=inspect)
     bad = []
     if got.exc is not None:
         return base, None, [("exception", got.exc)]
@@ -145,12 +151,19 @@ def sized_programs(seed):
         tail = [("addi", r1, 0, 0, 7), ("addi", r2, r1, 0, 9), ("add", r3, r1, r2, 0)]
         prog = [("jal", 0, 0, 0, 4 * (n - len(tail)))] + [("addi", 0, 0, 0, 0)] * (n - len(tail) - 1) + tail
         out.append((f"full-memory-minus{short}", prog))
+    # two blocks one page (4 KiB) / half a page / two pages apart that are fetched alternately: only a cache whose way is larger keeps both
+    for dist in (1024, 512, 2048):
+        prog = [("addi", 25, 0, 0, 3), ("jal", 0, 0, 0, 4 * dist), ("addi", 25, 25, 0, -1), ("bne", 0, 25, 0, -8), ("jal", 0, 0, 0, 4 * (dist + 2 - 4))]
+        prog += [("addi", 0, 0, 0, 0)] * (dist + 1 - len(prog)) + [("jal", 0, 0, 0, -4 * (dist + 1 - 2)), ("addi", r1, 0, 0, 7)]
+        out.append((f"blocks-{4 * dist}-bytes-apart", prog))
     return out
 
 
 _S = Settings().get()
 IMEM_WORDS = (_S["instruction_memory_max_bytes"] - _S["instruction_memory_min_bytes"]) // 4
-SIZED_EXTRA_CFGS = [(0, 1, 4, "plru", 2), (1, 0, 4, "plru", 1), (0, 0, 8, "plru", 0), (0, 1, 4, "lru", 2), (0, 0, 3, "lru", 1)]
+SIZED_EXTRA_CFGS = [(0, 1, 4, "plru", 2), (1, 0, 4, "plru", 1), (0, 0, 8, "plru", 0), (0, 1, 4, "lru", 2), (0, 0, 3, "lru", 1), (0, 0, 4, "lru", 1), (0, 0, 5, "lru", 2),
+                    # the largest geometries: one way as large as the whole instruction memory / half of it
+                    (12, 0, 1, "lru", 3), (8, 3, 1, "lru", 1), (9, 1, 2, "plru", 2)]
 
 
 def odd_target_programs(seed):
@@ -194,9 +207,14 @@ def sized_shard(shard):
             continue
         for si, st in enumerate(states):
             for ci, cfg in enumerate(cfgs):
-                for mode in (rv.SINGLE, rv.FIVE):
-                    base, ref, bad = check_icache(prog, st["regs"], st["words"], cfg, mode, 400)
+                for mode, inspect in ((rv.SINGLE, False), (rv.FIVE, False)) + (((rv.SINGLE, True), (rv.FIVE, True)) if cfg[2] >= 3 and len(prog) < 200 else ()):
+                    base, ref, bad = check_icache(prog, st["regs"], st["words"], cfg, mode, 400, inspect)
                     p.evaluations += 1
+                    if inspect:
+                        p.counters["cache-table-looked-at-after-every-step"] += 1
+                        bad = [(f, d + " (cache table and statistics looked at after every step)") for f, d in bad]
+                    if len(prog) > 500 and cfg[0] + cfg[1] > 10 and ref is not None and ref.hits:
+                        p.counters["far-apart-blocks-in-the-largest-cache"] += 1
                     if ref is not None and "eviction" in ref.events:
                         p.nontrivial += 1
                         p.counters["icache-loop-eviction"] += 1
@@ -207,7 +225,7 @@ def sized_shard(shard):
                         if other.hits != ref.hits:
                             p.counters["fetch-stream-distinguishes-plru-from-lru"] += 1
                     for f, d in bad:
-                        p.violation(dict(oracle="icache", field=f), case_of(prog, st["regs"], st["words"], cfg, mode, 400),
+                        p.violation(dict(oracle="icache", field=f), dict(case_of(prog, st["regs"], st["words"], cfg, mode, 400), inspect=inspect),
                                     f"{name} [{rv.prog_text(prog) if len(prog) < 40 else rv.prog_text(prog[:3]) + f'; ... ({len(prog)} instructions) ...; ' + rv.prog_text(prog[-3:])}] icache i{cfg[0]}b{cfg[1]}w{cfg[2]} {cfg[3]} pen={cfg[4]} {mode}: {d}", size=(len(prog), i, si, ci))
     return p
 
@@ -403,7 +421,7 @@ def replay(case):
     prog = [tuple(i) for i in case["prog"]]
     regs = {int(k): v for k, v in case["regs"].items()}
     words = {int(k): v for k, v in case["words"].items()}
-    _b, _r, bad = check_icache(prog, regs, words, tuple(case["cfg"]), case["mode"], case["maxsteps"])
+    _b, _r, bad = check_icache(prog, regs, words, tuple(case["cfg"]), case["mode"], case["maxsteps"], bool(case.get("inspect")))
     return [(dict(oracle="icache", field=f), f"[{rv.prog_text(prog)}]: {d}") for f, d in bad]
 
 
@@ -437,5 +455,5 @@ def run(ctx):
     t0 = time.time()
     part = pmap(sparse_shard, [(c, m, 9 if ctx.quick else 12, 12 if ctx.quick else 24, xi) for c in rc[:4] + rc[6:] for m in (rv.SINGLE, rv.FIVE) for xi in range(len(TEXTS) - 1)])
     ctx.space("icache-statistics-asked-twice", part, t0, histories="load X; k steps; statistics; load Y; j steps; statistics (no other statistics call)", k="0..9 (12)", j="0..12 (24)")
-    ctx.require("statistics-asked-only-twice")
+    ctx.require("statistics-asked-only-twice", "cache-table-looked-at-after-every-step", "far-apart-blocks-in-the-largest-cache")
     ctx.require("icache-eviction", "icache-hit", "icache-miss", "icache-loop-eviction", "reload-over-warm-cache", "fetch-stream-distinguishes-plru-from-lru", "control-transfer-to-unaligned-target")
